@@ -34,3 +34,14 @@ add("C03", "c03", "exploration", 200, 4000,
     assumptions=["real loopback HTTP (httptest servers, one http.Transport per hop)",
                  "well-formed repository names and tags only (the client rejects malformed ones locally)",
                  "tolerated by construction: degenerate ranges (only 'no wrong bytes'), mount size 0 over HTTP, HEAD-based resolves compared by status class, un-coded == UNKNOWN, repositories without content may be unknown or empty, a declared size that disagrees with the content is refused by net/http itself (no OCI code), BlobWriter.Cancel and wrong-offset resumes are not part of the differential (C04 covers the latter)"])
+
+add("C04", "c04", "exploration", 800, 20000,
+    t={"require": ["wrong-offset-probe", "resume-minus1", "resume-explicit", "wrong-digest", "len=1"]},
+    assumptions=["real loopback HTTP; every hop's transport is tapped to observe the 416 status",
+                 "resume with offset -1 when exactly one byte has been received is excluded (stated in the property)",
+                 "a wrong-offset resume that is itself refused (no data sent) counts as a refusal with any error"])
+
+add("C01", "c01", "exploration", 300, 6000,
+    assumptions=["own sha256 and an independent (repo,digest)->bytes map are the oracle",
+                 "degenerate ranges (o1 >= 0 and o1 <= o0, or o0 beyond the end) may fail or return the exact empty slice; range reads are not digest-verified by the client (documented), so only complete reads must fail on corruption",
+                 "corruptions are applied by a RoundTripper between client and server; net/http itself is trusted"])
